@@ -105,7 +105,7 @@ SPECS = {
     thorough=[S('A1', 1, mf('PHASE_REQ', 'GUARD_CANCEL', 'REPORT', 'PLAN_EDIT', 'PAYLOAD'), og('CORE', 'PLAN', 'REPORT', 'MANUAL', 'SERIAL', 'REPLAY', 'COPY', 'DESTROY', 'PAYLOAD', 'LOG'), W, share=3), S('A2', 2, mf('PHASE_REQ', 'GUARD_CANCEL', 'REPORT', 'PLAN_EDIT', 'PAYLOAD'), og('CORE', 'PLAN', 'REPORT', 'MANUAL', 'SERIAL', 'REPLAY', 'COPY', 'DESTROY', 'PAYLOAD', 'LOG'), W), S('T1', 3, M_T, O_TALL, W), S('T2', 3, M_TP, O_TALL, W), S('T3', 4, M_T, O_TALL), S('T3h', 4, M_T, O_TALL), S('T4', 2, M_T, O_TALL, W), S('T5', 2, M_TP, O_TALL, W), S('T6', 3, M_TP, O_TALL, W),
               S('P3', 3, M_P, O_PALL, W), S('P5', 2, M_P, O_PALL, W), S('P2', 1, M_P | mf('PAYLOAD'), O_PALL, W)]),
  'C02': dict(
-    quick=[S('S255', 0, M_G, og('CORE'), W, ['--strategies']), S('S1', 0, M_G, og('CORE'), W, ['--strategies']), S('P5', 2, M_P0, O_P), S('P5f', 1, M_P0, O_P), S('T1t', 2, M_T, O_T), S('T2t', 2, M_TP, O_T | og('PAYLOAD', 'MANUAL')), S('P5t', 1, M_P, O_P), S('N8', 2, M_T, O_T, flags=['--ids=0,3,4,7']), S('N5', 2, M_T, og('CORE')), S('N8p', 1, M_P0, O_P, flags=['--ids=0,7']), S('T1', 2, M_T, O_T), S('T1', 2, M_TC, og('CORE')), S('T2', 2, M_TP, O_T | og('PAYLOAD', 'MANUAL')), S('T3', 3, M_TC, O_T), S('P5', 1, M_P, O_P), S('P5', 1, M_PC, O_P), S('T4', 1, M_T, O_T), S('I2', 2, M_T | mf('INJ_DECIDE'), og('CORE'))],
+    quick=[S('T1', 1, M_T, O_T, flags=['--copy', '--copy-move']), S('S255', 0, M_G, og('CORE'), W, ['--strategies']), S('S1', 0, M_G, og('CORE'), W, ['--strategies']), S('P5', 2, M_P0, O_P), S('P5f', 1, M_P0, O_P), S('T1t', 2, M_T, O_T), S('T2t', 2, M_TP, O_T | og('PAYLOAD', 'MANUAL')), S('P5t', 1, M_P, O_P), S('N8', 2, M_T, O_T, flags=['--ids=0,3,4,7']), S('N5', 2, M_T, og('CORE')), S('N8p', 1, M_P0, O_P, flags=['--ids=0,7']), S('T1', 2, M_T, O_T), S('T1', 2, M_TC, og('CORE')), S('T2', 2, M_TP, O_T | og('PAYLOAD', 'MANUAL')), S('T3', 3, M_TC, O_T), S('P5', 1, M_P, O_P), S('P5', 1, M_PC, O_P), S('T4', 1, M_T, O_T), S('I2', 2, M_T | mf('INJ_DECIDE'), og('CORE'))],
     thorough=[S('I1', 2, M_T | mf('INJ_DECIDE'), og('CORE'), W), S('T1', 3, M_TC, og('CORE'), W), S('P5', 2, M_PC, O_P, W), S('T1', 3, M_T, O_T, W), S('T8', 3, M_T, O_T, W), S('T2', 3, M_TP2, O_T | og('PAYLOAD', 'PAYLOAD2', 'MANUAL'), W), S('T3', 4, M_T, O_T), S('T4', 2, M_T, O_T, W), S('T6', 3, M_TP, O_T | og('PAYLOAD'), W), S('P5', 2, M_PG, O_P, W), S('P1', 1, M_P0, O_P, W)]),
  'C03': dict(
     quick=[S('P5', 2, mf('GUARD_CANCEL', 'GUARD_REQ', 'GUARD_REPORT', 'REPORT'), og('CORE', 'PLAN', 'REPORT')), S('I4', 2, mf('GUARD_CANCEL', 'GUARD_REPORT', 'INJ_DECIDE'), og('CORE', 'REPORT')), S('T1t', 3, M_G, O_T), S('T2t', 2, M_G | mf('PAYLOAD'), O_T | og('PAYLOAD', 'MANUAL')), S('N8', 3, M_G, og('CORE'), flags=['--ids=0,3,4,7']), S('N5', 2, M_G, og('CORE')), S('T1', 3, M_G, O_T), S('T2', 3, M_G | mf('PAYLOAD'), O_T | og('PAYLOAD', 'MANUAL', 'REPLAY', 'SERIAL')), S('T3', 3, M_G, O_T), S('T8', 3, M_G, og('CORE')), S('T1', 2, M_T, O_T | og('REPLAY')), S('I1', 2, M_G | mf('INJ_DECIDE'), og('CORE')), S('I2', 2, M_G | mf('INJ_DECIDE'), og('CORE')), S('T1', 2, M_GC, og('CORE')), S('T3', 3, M_GC, og('CORE'))],
@@ -122,17 +122,17 @@ SPECS = {
     quick=[S('T1r', 2, M_T, O_T), S('P5h', 1, M_P0, O_P | og('SERIAL', 'QUERY')), S('T1t', 2, M_T, O_T | og('REPLAY')), S('T2t', 2, M_TP, O_T | og('PAYLOAD', 'MANUAL')), S('P5t', 1, M_PG, O_P | og('REACT', 'QUERY')), S('N8', 2, M_T, O_T | og('REPLAY'), flags=['--ids=0,3,4,7']), S('N5', 1, M_T, O_T), S('T1', 2, M_T, O_T | og('REPLAY')), S('T2', 2, M_TP, O_T | og('PAYLOAD', 'MANUAL', 'REPLAY', 'SERIAL')), S('T9', 2, M_TP, O_T | og('PAYLOAD')), S('T3', 3, M_T, O_T), S('P5', 1, M_PG, O_P | og('REACT', 'QUERY')), S('T4', 1, M_T, O_T), S('I1', 1, M_T | mf('INJ_DECIDE'), O_T), S('T1', 2, M_TC, og('CORE')), S('A2', 1, mf('PHASE_REQ', 'GUARD_CANCEL', 'REPORT', 'PLAN_EDIT', 'PAYLOAD'), og('CORE', 'PLAN', 'REPORT', 'MANUAL', 'SERIAL', 'REPLAY', 'COPY', 'DESTROY', 'PAYLOAD', 'LOG')), S('A1', 0, mf('PHASE_REQ', 'GUARD_CANCEL', 'REPORT', 'PLAN_EDIT', 'PAYLOAD'), og('CORE', 'PLAN', 'REPORT', 'MANUAL', 'SERIAL', 'REPLAY', 'COPY', 'DESTROY', 'PAYLOAD', 'LOG'))],
     thorough=[S('T1', 3, M_T, O_T | og('REPLAY'), W), S('T2', 3, M_TP, O_T | og('PAYLOAD', 'MANUAL', 'REPLAY', 'SERIAL'), W), S('T9', 3, M_TP, O_T | og('PAYLOAD'), W), S('T3', 4, M_T, O_T), S('T4', 2, M_T, O_T, W), S('T5', 2, M_TP, O_TALL, W), S('P5', 2, M_PG, O_P | og('REACT', 'QUERY'), W), S('I1', 2, M_T | mf('INJ_DECIDE'), O_T, W)]),
  'C07': dict(
-    quick=[S('T9a', 2, M_TP, O_T | og('PAYLOAD')), S('T9b', 2, M_TP, O_T | og('PAYLOAD', 'SERIAL')), S('P7a', 1, M_P0 | mf('PAYLOAD'), O_P | og('PAYLOAD')), S('P7b', 0, M_P0 | mf('PAYLOAD'), O_P | og('PAYLOAD')), S('P7h', 1, M_P0 | mf('PAYLOAD'), O_P | og('PAYLOAD', 'SERIAL')), S('T2t', 2, M_TP, O_T | og('PAYLOAD', 'MANUAL', 'REPLAY')), S('P7t', 1, M_P0 | mf('PAYLOAD'), O_P | og('PAYLOAD')), S('P7u', 0, M_P0 | mf('PAYLOAD'), O_P | og('PAYLOAD')), S('T2', 2, M_TP | mf('COMPOSITE'), og('CORE', 'PAYLOAD', 'MANUAL')), S('T9', 2, M_TP | mf('COMPOSITE'), og('CORE', 'PAYLOAD')), S('T2', 2, M_TP2, O_T | og('PAYLOAD', 'PAYLOAD2', 'MANUAL')), S('T6', 2, M_TP2, O_T | og('PAYLOAD', 'PAYLOAD2')), S('T9', 2, M_TP2, O_T | og('PAYLOAD', 'PAYLOAD2')), S('P7', 1, M_P | mf('PAYLOAD'), O_P | og('PAYLOAD'))],
+    quick=[S('T2', 1, M_TP, O_T | og('PAYLOAD', 'MANUAL'), flags=['--copy', '--copy-move']), S('T9b', 1, M_TP, O_T | og('PAYLOAD'), flags=['--copy']), S('P7', 0, M_P0 | mf('PAYLOAD'), O_P | og('PAYLOAD'), flags=['--copy', '--copy-move']), S('T9a', 2, M_TP, O_T | og('PAYLOAD')), S('T9b', 2, M_TP, O_T | og('PAYLOAD', 'SERIAL')), S('P7a', 1, M_P0 | mf('PAYLOAD'), O_P | og('PAYLOAD')), S('P7b', 0, M_P0 | mf('PAYLOAD'), O_P | og('PAYLOAD')), S('P7h', 1, M_P0 | mf('PAYLOAD'), O_P | og('PAYLOAD', 'SERIAL')), S('T2t', 2, M_TP, O_T | og('PAYLOAD', 'MANUAL', 'REPLAY')), S('P7t', 1, M_P0 | mf('PAYLOAD'), O_P | og('PAYLOAD')), S('P7u', 0, M_P0 | mf('PAYLOAD'), O_P | og('PAYLOAD')), S('T2', 2, M_TP | mf('COMPOSITE'), og('CORE', 'PAYLOAD', 'MANUAL')), S('T9', 2, M_TP | mf('COMPOSITE'), og('CORE', 'PAYLOAD')), S('T2', 2, M_TP2, O_T | og('PAYLOAD', 'PAYLOAD2', 'MANUAL')), S('T6', 2, M_TP2, O_T | og('PAYLOAD', 'PAYLOAD2')), S('T9', 2, M_TP2, O_T | og('PAYLOAD', 'PAYLOAD2')), S('P7', 1, M_P | mf('PAYLOAD'), O_P | og('PAYLOAD'))],
     thorough=[S('T2', 3, M_TP2, O_T | og('PAYLOAD', 'PAYLOAD2', 'MANUAL'), W), S('T6', 3, M_TP2, O_T | og('PAYLOAD', 'PAYLOAD2'), W), S('T9', 3, M_TP2, O_T | og('PAYLOAD', 'PAYLOAD2'), W), S('T5', 2, M_TP2, O_T | og('PAYLOAD', 'PAYLOAD2', 'MANUAL'), W), S('P7', 2, M_P0 | mf('PAYLOAD'), O_P | og('PAYLOAD'), W), S('P2', 1, M_P0 | mf('PAYLOAD'), O_P | og('PAYLOAD', 'MANUAL'), W)]),
  'C08': dict(
-    quick=[S('P8c', 1, M_P0, og('CORE', 'PLAN', 'REPORT'), W), S('P5h', 1, M_P0, O_P | og('SERIAL'), W), S('P7h', 0, M_P0 | mf('PAYLOAD'), O_P | og('PAYLOAD', 'SERIAL'), W), S('P5t', 2, M_P0, O_P, W), S('P5u', 1, M_P, O_P | og('PLAN_REMOVE'), W), S('P7t', 1, M_P0 | mf('PAYLOAD'), O_P | og('PAYLOAD'), W), S('N8p', 2, M_P0 | mf('REPORT_OTHER'), O_P, W, flags=['--ids=0,7']), S('N7p', 1, M_P | mf('GUARD_REQ'), O_P | og('PLAN_REMOVE'), W, flags=['--ids=0,3,6']), S('P5', 2, M_P0, O_P, W), S('P3', 2, M_P, O_P | og('PLAN_REMOVE')), S('P6', 1, M_P, O_P | og('PLAN_REMOVE'), W), S('P5', 1, M_PG, O_P | og('REACT', 'PLAN_REMOVE'), W), S('P5', 1, M_PC, O_P, W), S('P3', 2, M_PC, O_P)],
+    quick=[S('P6m', 0, M_P, O_P | og('MANUAL', 'SERIAL'), W), S('P7', 0, M_P0 | mf('PAYLOAD'), O_P | og('PAYLOAD'), W), S('P8c', 0, M_P0, og('CORE', 'PLAN', 'REPORT'), W), S('P5h', 1, M_P0, O_P | og('SERIAL'), W), S('P7h', 0, M_P0 | mf('PAYLOAD'), O_P | og('PAYLOAD', 'SERIAL'), W), S('P5t', 2, M_P0, O_P, W), S('P5u', 1, M_P, O_P | og('PLAN_REMOVE'), W), S('P7t', 1, M_P0 | mf('PAYLOAD'), O_P | og('PAYLOAD'), W), S('N8p', 2, M_P0 | mf('REPORT_OTHER'), O_P, W, flags=['--ids=0,7']), S('N7p', 1, M_P | mf('GUARD_REQ'), O_P | og('PLAN_REMOVE'), W, flags=['--ids=0,3,6']), S('P5', 2, M_P0, O_P, W), S('P3', 2, M_P, O_P | og('PLAN_REMOVE')), S('P6', 1, M_P, O_P | og('PLAN_REMOVE'), W), S('P5', 1, M_PG, O_P | og('REACT', 'PLAN_REMOVE'), W), S('P5', 1, M_PC, O_P, W), S('P3', 2, M_PC, O_P)],
     thorough=[S('P5', 2, M_PC, O_P, W, share=2), S('P5', 2, M_PG, O_P | og('REACT', 'PLAN_REMOVE'), W, share=3), S('P3', 3, M_P, O_P | og('PLAN_REMOVE'), W), S('P6', 2, M_P, O_P | og('PLAN_REMOVE'), W), S('P1', 1, M_P0, O_P, W, share=4), S('P7', 1, M_P | mf('PAYLOAD'), O_P | og('PAYLOAD'), W), S('P2', 1, M_P0 | mf('PAYLOAD'), O_P | og('PAYLOAD', 'MANUAL'), W, share=2)]),
  'C09': dict(
-    quick=[S('P8c', 1, M_P0, og('CORE', 'PLAN', 'REPORT'), W), S('P7h', 0, M_P0 | mf('PAYLOAD'), O_P | og('PAYLOAD', 'SERIAL'), W), S('P5f', 2, M_P0, O_P, W), S('P5s', 2, M_P0, O_P, W), S('P5n', 1, M_P0, O_P, W), S('P5t', 2, M_P0, O_P, W), S('P5u', 1, M_P, O_P | og('PLAN_REMOVE'), W), S('N8p', 2, M_P0 | mf('REPORT_OTHER'), O_P, W, flags=['--ids=0,7']), S('N7p', 1, M_P, O_P | og('PLAN_REMOVE'), W, flags=['--ids=0,3,6']), S('P5', 2, M_P0, O_P, W), S('P5', 1, M_PC, O_P, W), S('P3', 2, M_PC, O_P), S('P3', 2, M_P, O_P | og('PLAN_REMOVE'), prefills=[0x00, 0xFF, 0xA5]), S('P6', 1, M_P, O_P | og('PLAN_REMOVE'), W), S('P5h', 1, M_P0, O_P | og('SERIAL', 'REPLAY'), W, prefills=[0xFF, 0xA5]),
+    quick=[S('P6m', 1, M_P, O_P | og('MANUAL', 'SERIAL'), W), S('P8c', 1, M_P0, og('CORE', 'PLAN', 'REPORT'), W), S('P7h', 0, M_P0 | mf('PAYLOAD'), O_P | og('PAYLOAD', 'SERIAL'), W), S('P5f', 2, M_P0, O_P, W), S('P5s', 2, M_P0, O_P, W), S('P5n', 1, M_P0, O_P, W), S('P5t', 2, M_P0, O_P, W), S('P5u', 1, M_P, O_P | og('PLAN_REMOVE'), W), S('N8p', 2, M_P0 | mf('REPORT_OTHER'), O_P, W, flags=['--ids=0,7']), S('N7p', 1, M_P, O_P | og('PLAN_REMOVE'), W, flags=['--ids=0,3,6']), S('P5', 2, M_P0, O_P, W), S('P5', 1, M_PC, O_P, W), S('P3', 2, M_PC, O_P), S('P3', 2, M_P, O_P | og('PLAN_REMOVE'), prefills=[0x00, 0xFF, 0xA5]), S('P6', 1, M_P, O_P | og('PLAN_REMOVE'), W), S('P5h', 1, M_P0, O_P | og('SERIAL', 'REPLAY'), W, prefills=[0xFF, 0xA5]),
            S('P3', 1, M_P, O_P | og('PLAN_REMOVE'), variant='plain-O0', prefills=[0x00, 0xFF, 0xA5]), S('P5', 1, M_P0, O_P, variant='plain-O0', prefills=[0x00, 0xFF])],
     thorough=[S('P5', 2, M_PC, O_P, W, share=2), S('P5', 2, M_PG, O_P | og('REACT', 'PLAN_REMOVE'), W, share=3, prefills=[0x00, 0xFF]), S('P3', 3, M_P, O_P | og('PLAN_REMOVE'), W, prefills=[0x00, 0xFF, 0xA5]), S('P6', 2, M_P, O_P | og('PLAN_REMOVE'), W), S('P1', 1, M_P0, O_P, W, share=4), S('P2', 1, M_P0 | mf('PAYLOAD'), O_P | og('PAYLOAD', 'MANUAL'), W, share=2), S('P5h', 1, M_P, O_P | og('SERIAL', 'REPLAY'), W)]),
  'C11': dict(
-    quick=[S('P7', 1, M_P0 | mf('PAYLOAD'), O_P | og('PAYLOAD', 'REPLAY'), flags=['--replica']), S('T2t', 2, M_TP, O_T | og('PAYLOAD', 'MANUAL', 'REPLAY', 'COPY', 'SERIAL'), flags=['--replica']), S('N8', 2, M_T, O_T | og('REPLAY'), flags=['--replica', '--ids=0,3,4,7']), S('N5', 1, M_T, O_T | og('REPLAY'), flags=['--replica']), S('T1', 2, M_T, O_T | og('REPLAY', 'COPY'), flags=['--replica']), S('T2', 2, M_TP, O_T | og('PAYLOAD', 'MANUAL', 'REPLAY', 'COPY', 'SERIAL'), flags=['--replica']), S('T3h', 3, M_T, O_T | og('REPLAY'), flags=['--replica']), S('T4', 1, M_T, O_T | og('REPLAY'), flags=['--replica'])],
+    quick=[S('T1', 1, M_T, O_T | og('REPLAY'), flags=['--copy', '--copy-move']), S('T2', 1, M_TP, O_T | og('PAYLOAD', 'MANUAL', 'REPLAY'), flags=['--copy']), S('P7', 1, M_P0 | mf('PAYLOAD'), O_P | og('PAYLOAD', 'REPLAY'), flags=['--replica']), S('T2t', 2, M_TP, O_T | og('PAYLOAD', 'MANUAL', 'REPLAY', 'COPY', 'SERIAL'), flags=['--replica']), S('N8', 2, M_T, O_T | og('REPLAY'), flags=['--replica', '--ids=0,3,4,7']), S('N5', 1, M_T, O_T | og('REPLAY'), flags=['--replica']), S('T1', 2, M_T, O_T | og('REPLAY', 'COPY'), flags=['--replica']), S('T2', 2, M_TP, O_T | og('PAYLOAD', 'MANUAL', 'REPLAY', 'COPY', 'SERIAL'), flags=['--replica']), S('T3h', 3, M_T, O_T | og('REPLAY'), flags=['--replica']), S('T4', 1, M_T, O_T | og('REPLAY'), flags=['--replica'])],
     thorough=[S('T1', 3, M_T, O_T | og('REPLAY', 'COPY'), W, ['--replica']), S('T2', 3, M_TP, O_T | og('PAYLOAD', 'MANUAL', 'REPLAY', 'COPY', 'SERIAL'), W, ['--replica']), S('T3h', 4, M_T, O_T | og('REPLAY'), flags=['--replica']), S('T4', 2, M_T, O_T | og('REPLAY'), W, ['--replica']),
               S('T5', 2, M_TP, O_T | og('PAYLOAD', 'MANUAL', 'REPLAY', 'COPY', 'SERIAL'), W, ['--replica']), S('T6', 3, M_TP, O_T | og('PAYLOAD', 'REPLAY'), W, ['--replica']), S('P2', 1, M_P0 | mf('PAYLOAD'), O_P | og('PAYLOAD', 'MANUAL', 'REPLAY'), W, ['--replica'])]),
  'C15': dict(
@@ -291,6 +291,16 @@ def run_check(prop, tier):
         if m:
             V = Verdict(prop, tier)
             V.add_violation('static-assertion', 'a compile-time fact the check asserts about the library no longer holds: %s (%s:%s)' % (m.group(3).strip()[:200], m.group(1), m.group(2)), dict(kind='build', output=out[-3000:]))
+            V.transitions = 1; V.states = 1
+            return V.finish()
+        # The first error sits inside the library's own sources (not in a harness file): the library no longer compiles for a client that
+        # the unchanged tree accepts -- with this compiler, language standard and feature set. That is a defect of the tree under test,
+        # reported by whichever check needed the build (the harness sources themselves did not change between the two trees).
+        first = re.search(r'^(\S+?):(\d+):\d+: (?:fatal )?error: (.*)$', out, re.M)
+        if first and os.path.realpath(first.group(1)).startswith(os.path.realpath(REPO) + os.sep):
+            cmdline = out.splitlines()[0][:300]
+            V = Verdict(prop, tier)
+            V.add_violation('library-does-not-compile', 'the library does not compile for the harness of this check: %s:%s: %s || %s' % (os.path.relpath(first.group(1), REPO), first.group(2), first.group(3)[:300], cmdline), dict(kind='build', output=out[-3000:]))
             V.transitions = 1; V.states = 1
             return V.finish()
         raise
